@@ -48,8 +48,9 @@ Fixpoint ml_search (l : match_list) (offset : N) : bool * nat :=
                       base = if f(self[mid]) == Greater { base } else { mid }; size -= half; }
      let cmp = f(self[base]);
      if cmp == Equal { Ok(base) } else { Err(base + (cmp == Less) as usize) }
-   `fuel` bounds the loop (size at least halves... it strictly decreases while > 1;
-   fuel = len is enough and the loop never runs out: search_std_eq). *)
+   `fuel` bounds the loop: `size` strictly decreases while it is > 1, so fuel = len is
+   enough and the loop never runs out (MatchListProofs.bs_loop_inv, search_std_eq).
+   get_unchecked(mid) is in bounds by the same invariant; start_at's default is never used. *)
 Definition start_at (l : match_list) (i : nat) : N :=
   match nth_error l i with Some m => m_start m | None => 0%N end.
 
